@@ -19,18 +19,30 @@ Open Scope Z_scope.
 (* --- the frame produced by collect() never carries more than the remote Link MIU, for every queue state,
        every MIU 128..2175, aggregation on or off; collect() itself returns (no exception, no hang) and
        re-establishes the invariant --- *)
-Theorem C10_collect_bound : forall c cm st, 128 <= send_miu c <= 2175 -> queued_ok (send_miu c) cm st ->
-  exists st' f, collect c st = Ok (st', f) /\ frame_info f <= send_miu c /\ queued_ok (send_miu c) cm st'.
+Theorem C10_collect_bound : forall c cm st, cipher_ok c -> 128 <= send_miu c <= 2175 -> queued_ok (send_miu c) cm st ->
+  exists st' f, collect c st = Ok (st', f) /\ frame_info f <= frame_limit c f /\ queued_ok (send_miu c) cm st'.
 Proof.
-  intros c cm st HM I. destruct (collect_v_total fixed c st) as (st' & f & E). exists st', f.
-  destruct (collect_bound_ok c cm st st' f ltac:(lia) I E) as (A & _ & B). auto.
+  intros c cm st Hc HM I. destruct (collect_v_total fixed c st) as (st' & f & E). exists st', f.
+  destruct (collect_bound_ok c cm st st' f Hc ltac:(lia) I E) as (A & _ & B). auto.
 Qed.
 Print Assumptions C10_collect_bound.
+(* frame_limit spelled out: the remote MIU - for every aggregate, for every frame without secure data transfer, and
+   for every PDU that is not an encrypted UI / I; a single encrypted UI / I PDU may exceed it by the ICV only *)
+Theorem C10_frame_limit : forall c f,
+  (forall l, f = FAgf l -> frame_limit c f = send_miu c) /\ (sec c = None -> frame_limit c f = send_miu c) /\
+  (forall p, f = FOne p -> frame_limit c f = send_miu c + (if is_ui_i p then cfg_icv c else 0)).
+Proof.
+  intros c f. unfold frame_limit, cfg_icv. repeat split.
+  - intros l ->. lia.
+  - intros ->. destruct f as [|p|l]; try destruct (is_ui_i p); lia.
+  - intros p ->. reflexivity.
+Qed.
+Print Assumptions C10_frame_limit.
 
 (* the bound needs only the structural part of queued_ok (oversized I/UI PDUs are held back by dequeue) *)
-Theorem C10_collect_bound_struct : forall c st st' f, 128 <= send_miu c <= 2175 -> struct_ok st ->
-  collect c st = Ok (st', f) -> struct_ok st' /\ frame_info f <= send_miu c.
-Proof. intros c st st' f HM. apply collect_bound_struct. lia. Qed.
+Theorem C10_collect_bound_struct : forall c st st' f, cipher_ok c -> 128 <= send_miu c <= 2175 -> struct_ok st ->
+  collect c st = Ok (st', f) -> struct_ok st' /\ frame_info f <= frame_limit c f.
+Proof. intros c st st' f Hc HM. apply collect_bound_struct; [exact Hc|lia]. Qed.
 Print Assumptions C10_collect_bound_struct.
 
 (* the bound is a bound on bytes: the encoded frame is its header (2, or 3 for I/RR/RNR) plus frame_info bytes *)
@@ -39,11 +51,11 @@ Proof. exact enc_frame_len. Qed.
 Print Assumptions C10_wire_length.
 
 (* --- every UI payload respects the link MIU, every I payload the MIU of its connection - single or aggregated --- *)
-Theorem C10_ui_i_payload_bound : forall c cm st st' f p, 128 <= send_miu c <= 2175 -> queued_ok (send_miu c) cm st ->
-  collect c st = Ok (st', f) -> In p (frame_pdus f) ->
-  (pt p = PT_UI -> len (body p) <= send_miu c) /\ (pt p = PT_I -> len (body p) <= cm (da p) (sa p)).
+Theorem C10_ui_i_payload_bound : forall c cm st st' f p, cipher_ok c -> 128 <= send_miu c <= 2175 ->
+  queued_ok (send_miu c) cm st -> collect c st = Ok (st', f) -> In p (frame_pdus f) ->
+  (pt p = PT_UI -> len (body p) <= send_miu c + cfg_icv c) /\ (pt p = PT_I -> len (body p) <= cm (da p) (sa p) + cfg_icv c).
 Proof.
-  intros c cm st st' f p HM I E Hp. destruct (collect_bound_ok c cm st st' f ltac:(lia) I E) as (_ & A & _).
+  intros c cm st st' f p Hc HM I E Hp. destruct (collect_bound_ok c cm st st' f Hc ltac:(lia) I E) as (_ & A & _).
   rewrite Forall_forall in A. exact (A p Hp).
 Qed.
 Print Assumptions C10_ui_i_payload_bound.
@@ -90,9 +102,9 @@ Proof. exact send_keeps_queued_ok. Qed.
 Print Assumptions C10_send_keeps_queued_ok.
 
 (* --- aggregation is transparent: pdu.decode + dispatch at the receiver hand on exactly the collected PDUs, in order --- *)
-Theorem C10_agf_transparent : forall c st st' f, 128 <= send_miu c <= 2175 -> wire_ok st ->
+Theorem C10_agf_transparent : forall c st st' f, cipher_ok c -> 128 <= send_miu c <= 2175 -> wire_ok st ->
   collect c st = Ok (st', f) -> f <> FNone -> receive (enc_frame f) = Ok (frame_pdus f).
-Proof. intros c st st' f HM. apply agf_transparent_wire. lia. Qed.
+Proof. intros c st st' f Hc HM. apply agf_transparent_wire; [exact Hc|lia]. Qed.
 Print Assumptions C10_agf_transparent.
 
 (* --- the explicit fuel of the aggregation loop is never exhausted; collect is total for every state, MIU, variant --- *)
@@ -106,7 +118,7 @@ Theorem C10_pinned_code_refuted : exists c cm st st' f, 128 <= send_miu c <= 217
 Proof. exact orig_bound_refuted. Qed.
 Print Assumptions C10_pinned_code_refuted.
 Theorem C10_pinned_code_refuted_agf :
-  info_of (collect_v orig (mkCfg 128 true) ex_state2) = 135 /\ info_of (collect_v fixed (mkCfg 128 true) ex_state2) = 126.
+  info_of (collect_v orig (mkCfg 128 true None) ex_state2) = 135 /\ info_of (collect_v fixed (mkCfg 128 true None) ex_state2) = 126.
 Proof. exact orig_refuted_agf. Qed.
 Print Assumptions C10_pinned_code_refuted_agf.
 
@@ -132,28 +144,28 @@ Theorem C10_bridge_sd_dequeue : forall r rest miu k q qs taken thr dm,
      else Ok (mkSd [] [] dm, None)).
 Proof. intros. split; [apply bridge_take_res|]. split; [apply bridge_req_loop|apply bridge_sd_dm]. Qed.
 Print Assumptions C10_bridge_sd_dequeue.
-Theorem C10_bridge_collect_budgets : forall M p miu1 thr icv o r agf miu dn,
+Theorem C10_bridge_collect_budgets : forall c M p miu1 thr icv o r agf miu dn,
   (plen p - hsize p >=? M) = gen_c10_early_return (plen p) (hsize p) (gen_c10_miu_first M) /\
   M - agf_len [p] - 3 = gen_c10_budget1 M (agf_len [p]) /\ (miu1 >=? 0) = gen_c10_final_acks miu1 /\
-  agg_for thr M icv (o :: r) agf miu dn =
-  (do x <- obj_dequeue thr miu icv o;
+  agg_for c thr M icv (o :: r) agf miu dn =
+  (do x <- obj_dequeue thr miu (gen_c10_icv_agg icv) o;
    let '(o', y) := x in
    match y with
    | Some p =>
-       let agf' := agf ++ [p] in
+       let agf' := agf ++ [maybe_encrypt c p] in
        let miu' := gen_c10_budget2 M (agf_len agf') in
        if gen_c10_break_inner miu' then Ok (o' :: r, agf', miu', false)
-       else do z <- agg_for thr M icv r agf' miu' false; let '(r', a, m, d) := z in Ok (o' :: r', a, m, d)
-   | None => do z <- agg_for thr M icv r agf miu dn; let '(r', a, m, d) := z in Ok (o' :: r', a, m, d)
+       else do z <- agg_for c thr M icv r agf' miu' false; let '(r', a, m, d) := z in Ok (o' :: r', a, m, d)
+   | None => do z <- agg_for c thr M icv r agf miu dn; let '(r', a, m, d) := z in Ok (o' :: r', a, m, d)
    end).
 Proof. intros. destruct (bridge_collect_budget M p miu1) as [A B]. split; [apply bridge_early_return|]. split; [exact A|]. split; [exact B|apply bridge_agg_for]. Qed.
 Print Assumptions C10_bridge_collect_budgets.
-Theorem C10_bridge_collect_loops : forall f M icv l agf miu o r,
-  agg_loop (S f) fixed M icv l agf miu =
+Theorem C10_bridge_collect_loops : forall f c M icv l agf miu o r,
+  agg_loop (S f) c fixed M icv l agf miu =
   (if gen_c10_agf_enter miu then
-     do x <- agg_for (sd_thr fixed) M icv l agf miu true;
+     do x <- agg_for c (sd_thr fixed) M icv l agf miu true;
      let '(l', agf', miu', dn) := x in
-     if gen_c10_break_outer miu' dn then Ok (l', agf', miu') else agg_loop f fixed M icv l' agf' miu'
+     if gen_c10_break_outer miu' dn then Ok (l', agf', miu') else agg_loop f c fixed M icv l' agf' miu'
    else Ok (l, agf, miu)) /\
   ack_for M (o :: r) agf =
   (if skind_eqb (obj_mode o) Dlc then
@@ -168,6 +180,29 @@ Theorem C10_bridge_collect_loops : forall f M icv l agf miu o r,
    else let '(r', a) := ack_for M r agf in (o :: r', a)).
 Proof. intros. split; [apply bridge_agg_loop|apply bridge_ack_for]. Qed.
 Print Assumptions C10_bridge_collect_loops.
+(* the ICV allowance: where icv_size comes from, when a PDU is encrypted, and what each dequeue call site passes on *)
+Theorem C10_bridge_icv : forall c thr b miu icv o r a s l k p,
+  cfg_icv c = gen_c10_icv_size (sec_on c) (sec_icv c) /\
+  (maybe_encrypt c p =
+   (if gen_c10_encrypt_cond1 (sec_on c) (is_ui_i p)
+    then match sec c with Some k => mkPdu (pt p) (da p) (sa p) (ns p) (nr p) (encrypt k (enc_hdr p) (body p)) | None => p end
+    else p) /\ gen_c10_encrypt_cond2 (sec_on c) (is_ui_i p) = gen_c10_encrypt_cond1 (sec_on c) (is_ui_i p)) /\
+  first_pass c thr b miu (o :: r) =
+    (if Bool.eqb (skind_eqb (obj_mode o) Raw) b then
+       do x <- obj_dequeue thr miu (gen_c10_icv_first (cfg_icv c)) o;
+       let '(o', y) := x in
+       match y with
+       | Some p => Ok (o' :: r, Some (maybe_encrypt c p))
+       | None => do z <- first_pass c thr b miu r; let '(r', y') := z in Ok (o' :: r', y')
+       end
+     else do z <- first_pass c thr b miu r; let '(r', y') := z in Ok (o :: r', y')) /\
+  sap_dequeue miu icv a = sap_dequeue miu (gen_c10_icv_sap icv) a /\
+  socks_dequeue k miu icv l = socks_dequeue k miu (gen_c10_icv_sap icv) l /\
+  sock_dequeue Ldl miu icv s = (let '(q', x) := tco_dequeue (Some miu) (gen_c10_icv_ldl icv) (sq s) in (with_sq s q', x)) /\
+  sock_dequeue Raw miu icv s = (let '(q', x) := tco_dequeue None (gen_c10_icv_raw icv) (sq s) in (with_sq s q', x)) /\
+  sock_dequeue Dlc miu icv s = dlc_dequeue miu (gen_c10_icv_dlc icv) s.
+Proof. intros. split; [apply bridge_icv_size|]. split; [apply bridge_encrypt|apply bridge_icv_sites]. Qed.
+Print Assumptions C10_bridge_icv.
 Theorem C10_bridge_len : forall p d s n r data reason b0 b1 b2 b3 sk,
   hsize p = (if numbered (pt p) then gen_c10_hdr_numbered else gen_c10_hdr_plain) /\
   plen (mkPdu PT_UI d s n r data) = gen_c10_len_ui data /\
@@ -187,16 +222,24 @@ Definition nv_ldl := mkSock [mkPdu PT_UI 16 32 0 0 (repeat 7 60); mkPdu PT_UI 17
 Definition nv_dlc := mkSock [mkPdu PT_I 20 40 0 0 (repeat 9 5)] ST_ESTABLISHED false false 1 1 0 2 1 0 2 128 20 40.
 Definition nv_state := [SapN (mkSap Raw [] [mkPdu PT_DM 9 0 0 0 [2]]); SapD (mkSd [(1, 0); (2, 16)] [(7, [97; 98])] []);
    SapN (mkSap Ldl [nv_ldl] []); SapN (mkSap Dlc [nv_dlc] [])].
+Definition nv_cipher := mkCipher 4 (fun _ d => d ++ [238; 238; 238; 238]).
 Example C10_nonvacuous :
-  queued_ok 128 (fun _ _ => 128) nv_state /\ wire_ok nv_state /\
-  match collect (mkCfg 128 true) nv_state with
+  queued_ok 128 (fun _ _ => 128) nv_state /\ wire_ok nv_state /\ cipher_ok (mkCfg 128 true (Some nv_cipher)) /\
+  match collect (mkCfg 128 true None) nv_state with
   | Ok (_, f) => frame_info f = 96 /\ map pt (frame_pdus f) = [7; 9; 3; 12] /\ receive (enc_frame f) = Ok (frame_pdus f)
+  | _ => False
+  end /\
+  (* with secure data transfer the UI and the I PDU grow by the ICV: 104 bytes *)
+  match collect (mkCfg 128 true (Some nv_cipher)) nv_state with
+  | Ok (_, f) => frame_info f = 104 /\ map pt (frame_pdus f) = [7; 9; 3; 12] /\ receive (enc_frame f) = Ok (frame_pdus f)
   | _ => False
   end.
 Proof.
-  split; [|split].
+  split; [|split; [|split; [|split]]].
   1, 2: unfold queued_ok, wire_ok, nv_state; repeat (constructor; cbn); try lia; try discriminate;
         try (intros; discriminate); try (intros; lia);
         try (match goal with H : _ \/ _ |- _ => destruct H; discriminate end).
-  vm_compute. repeat split.
+  - split; [cbn; lia|]. intros k [= <-] a d. cbn [encrypt icv_size nv_cipher]. rewrite len_app. reflexivity.
+  - vm_compute. repeat split.
+  - vm_compute. repeat split.
 Qed.
